@@ -26,7 +26,8 @@ def program(name, args, ph, setname):
         K = cmds.klass(name)
         dec = {k: int(v) for k, v in K.unmarshall_cdb(cmd.cdb).items() if isinstance(v, int)}
         enc = bytes(K.marshall_cdb(dict(dec)))
-        return [list(cmd.cdb), len(cmd.datain), len(cmd.dataout), sorted(dec.items()), list(enc)]
+        enc2 = bytes(K.marshall_cdb({k: v for k, v in dec.items() if k != "opcode"}))
+        return [list(cmd.cdb), len(cmd.datain), len(cmd.dataout), sorted(dec.items()), list(enc), list(enc2)]
     return p
 
 
